@@ -459,6 +459,37 @@ def admitted_program_lines(ctx, doc, n):
                    "correspondence")
 
 
+def grid_lines():
+    """deterministic: every type x every operator on the identity/boundary grid; every shift x every right-operand kind
+    on the boundary counts of that kind"""
+    out = []
+    for L, (w, signed) in LKINDS.items():
+        lo, hi = rng_of(L)
+        vals = sorted({v for v in (lo, lo + 1, -2, -1, 0, 1, 2, 3, hi - 1, hi) if lo <= v <= hi})
+        for op in AOPS:
+            for a in vals:
+                for b in ([0, 1, 2, 3, 7, 8, hi] if op == "pow" and w > 8 else vals):
+                    if op == "pow" and w > 8 and b == hi:
+                        continue
+                    out.append("sint\t%s\t%s\t%d\t%s:%d" % (L, op, a, L, b))
+        for a in vals:
+            out.append("sint\t%s\tneg\t%d\t-" % (L, a))
+            out.append("sint\t%s\tnot\t%d\t-" % (L, a))
+        svals = sorted({v for v in (lo, -1, 1, hi, 0x55 * ((1 << w) // 255) % (hi + 1)) if lo <= v <= hi})
+        for op in SHOPS:
+            for rk in list(RKINDS) + ["b"]:
+                if rk == "b":
+                    counts = [1 << 63, -(1 << 63) - 1, 1 << 64, -(1 << 64)]
+                else:
+                    rlo, rhi = rng_of(rk)
+                    counts = sorted({c for c in (0, 1, -1, w - 1, w, w + 1, -(w - 1), -w, -(w + 1), rlo, rlo + 1, rhi)
+                                     if rlo <= c <= rhi})
+                for a in svals:
+                    for c in counts:
+                        out.append("sint\t%s\t%s\t%d\t%s:%d" % (L, op, a, rk, c))
+    return out
+
+
 def sweep8():
     """exhaustive 8-bit sweep (thorough tier): all operand pairs x all same-type operators, all values x all shift
     kinds x counts -9..9, 63, 64, 65, min, max"""
@@ -506,7 +537,7 @@ def run(ctx):
         lines = [inp["line"]]
     else:
         n = ctx.n(14000, 250000)
-        lines = vlib.corpus_lines("C07")
+        lines = vlib.corpus_lines("C07") + grid_lines()
         lines += [gen_sint(ctx.rng) for _ in range(n)]
         lines += [gen_flt(ctx.rng) for _ in range(n // 2)]
         if not ctx.quick:
